@@ -371,7 +371,10 @@ void ThreadPool::resizeLocked(ssize_t sn) {
       rings_.grow_by(n - rings_.size());
     }
     DISPENSO_VERIF_POINT("TpRzStoreNumRings", this);
-    numRings_.store(n, std::memory_order_release);
+    // Never shrink the published ring count: a producer that validated the ring fast path against
+    // the previous (larger) pool may still push to a ring beyond the new thread count after the
+    // drain above.  No worker owns such a ring, so task-set waiters must keep scanning it.
+    numRings_.store(rings_.size(), std::memory_order_release);
 
     size_t newNumSteal = (n + stealRingSharing_ - 1) / stealRingSharing_;
     if (newNumSteal > stealRings_.size()) {
